@@ -29,7 +29,9 @@ def nTemps : Nat := 3   -- tt0, tt1 and (number 2) the STDIN table
 def showState (s : State Tbl) : String :=
   let files := (List.range nFiles).map fun p =>
     if s.created p then "new" else match s.disk p with | some c => showTbl c | none => "-"
-  let temps := (List.range nTemps).map fun t => match s.temps t with | some x => showRows x.cur.2 | none => "-"
+  -- temporary tables: `h<k>/rows`, k = the current name (h0 / h1) of their second column
+  let temps := (List.range nTemps).map fun t =>
+    match s.temps t with | some x => "h" ++ toString x.cur.1 ++ "/" ++ showRows x.cur.2 | none => "-"
   let held := (List.range nFiles).filter (fun p => locked s p && (s.disk p).isSome)
   let locks := if held.isEmpty then "-" else String.intercalate "," (held.map toString)
   "disk:" ++ String.intercalate ";" files ++ "#L:" ++ locks ++ "|temps:" ++ String.intercalate ";" temps
@@ -51,6 +53,8 @@ def dmlFn (kind : String) (arg : Int) : Tbl → Option Tbl :=
   | "incrfail" => onRows fun c => if c.contains arg then none else some (c.map (· + 1))   -- fails part-way
   -- ALTER TABLE … SET LINE_BREAK TO LF|CRLF|CR (setting the current value is accepted with a notice)
   | "setlb" => fun c => some (arg.toNat % 2, c.2)
+  -- ALTER TABLE tt RENAME h<arg> TO h<1-arg> (temporary tables): fails unless the column is called h<arg> now
+  | "renhdr" => fun c => if c.1 = arg.toNat % 2 then some (1 - arg.toNat % 2, c.2) else none
   | _ => fun _ => none
 
 def c01stepCore (s : State Tbl) (cmd : String) (args : List String) : State Tbl × String :=
